@@ -546,6 +546,11 @@ func TestVerif_C10_EveryPos(t *testing.T) {
 	}
 	defer os.RemoveAll(root)
 	stride := vstat.Scale(211, 1)
+	// the enumeration is split over the driver's shards by byte position
+	shardK, shardN := 0, 1
+	if _, err := fmt.Sscanf(os.Getenv("VERIF_SHARD"), "%d/%d", &shardK, &shardN); err != nil || shardN < 1 || shardK < 0 || shardK >= shardN {
+		shardK, shardN = 0, 1
+	}
 	type shapeFn func(b *vsnap.Builder) error
 	ins := func(k int) string {
 		return fmt.Sprintf(`INSERT INTO t(a) VALUES('%s')`, strings.Repeat(string(rune('a'+k)), 30+k))
@@ -660,6 +665,9 @@ func TestVerif_C10_EveryPos(t *testing.T) {
 			return false
 		}
 		for p := 0; p < n && !failed; p++ {
+			if p%shardN != shardK {
+				continue // another shard's position
+			}
 			if p < src.hdrEnd {
 				for bit := 0; bit < 8; bit++ {
 					try(c10ByteMut(src, "flip", p, 1<<uint(bit)))
@@ -678,6 +686,9 @@ func TestVerif_C10_EveryPos(t *testing.T) {
 			try(c10ByteMut(src, "truncate", p, 0))
 		}
 		for _, extra := range []int{1, 24, 4096} {
+			if shardK != 0 {
+				break
+			}
 			try(c10ByteMut(src, "extend", extra, 0))
 			try(c10ByteMut(src, "extend", extra, 0x37))
 		}
